@@ -27,9 +27,12 @@
    Defects (dv; each is a generator of counterexample histories, never an oracle):
      "keepbuf"  _on_disconnect releases _clients[sock] only; _buffers[sock] is
                 deleted on the dispatch / 400 / TLS paths only (pinned code)
-     "echo505"  the 505 answer repeats the client's version token in its
-                status line (pinned code): when that token is not a valid
-                HTTP-version neither is the response
+     "echo505"  the 505 answer, and the 400 answer to a header error, repeat the
+                client's version token in their status line (pinned code):
+                "HTTP/2.0 505" is unreadable for an HTTP/1.x client (r505g), so
+                is "HTTP/1.380 400" (r400g: not a valid HTTP-version), and
+                "HTTP/1.2 400" carries no Connection: close although the
+                connection is closed (r400k)
    dv = {} is the intended discipline: everything keyed by the socket
    is released when disconnect(sock) is delivered.                          *)
 EXTENDS HttpConnOps, Naturals, FiniteSets, TLC
@@ -75,7 +78,7 @@ Reactions(cls) ==
   CASE cls = "GoodKA"    -> {"accK"}
     [] cls = "GoodClose" -> {"accC"}
     [] cls = "BadLine"   -> {"r400", "accK", "accC", "r505", "r301", "x500", "wait"}
-                              \cup (IF "echo505" \in dv THEN {"r505g"} ELSE {})
+                              \cup (IF "echo505" \in dv THEN {"r505g", "r400g", "r400k"} ELSE {})
     [] cls = "BadHeader" -> {"r400", "accK", "accC", "r301", "x500"}
     [] cls = "BadCL"     -> {"x500", "accK", "accC", "waitB"}
     [] cls = "BadChunk"  -> {"waitB", "accK", "accC"}
@@ -86,7 +89,7 @@ Reactions(cls) ==
     [] cls = "Rest"      -> {"accK", "accC", "r400", "wait", "waitB"}
     [] OTHER             -> {}
 
-Closing == {"accC", "r400", "r505", "r505g", "r301", "x500", "pclose"}
+Closing == {"accC", "r400", "r400g", "r400k", "r505", "r505g", "r301", "x500", "pclose"}
 
 (* the events of a reaction, up to and excluding the transport's reaction to close *)
 Events(r, c) ==
@@ -95,6 +98,8 @@ Events(r, c) ==
     [] r = "r400"  -> <<L("rej", c, 400, "", FALSE, 0, 0), L("resp", c, 400, "ok", TRUE, 0, 0), L("close", c, 0, "", FALSE, 0, 0)>>
     [] r = "r505"  -> <<L("rej", c, 505, "", FALSE, 0, 0), L("resp", c, 505, "ok", TRUE, 0, 0), L("close", c, 0, "", FALSE, 0, 0)>>
     [] r = "r505g" -> <<L("rej", c, 505, "", FALSE, 0, 0), L("resp", c, 0, "garbage", FALSE, 0, 0), L("close", c, 0, "", FALSE, 0, 0)>>
+    [] r = "r400g" -> <<L("rej", c, 400, "", FALSE, 0, 0), L("resp", c, 0, "garbage", FALSE, 0, 0), L("close", c, 0, "", FALSE, 0, 0)>>
+    [] r = "r400k" -> <<L("rej", c, 400, "", FALSE, 0, 0), L("resp", c, 400, "ok", FALSE, 0, 0), L("close", c, 0, "", FALSE, 0, 0)>>
     [] r = "r301"  -> <<L("rej", c, 301, "", FALSE, 0, 0), L("resp", c, 301, "ok", TRUE, 0, 0), L("close", c, 0, "", FALSE, 0, 0)>>
     [] r = "x500"  -> <<L("exc", c, 0, "", FALSE, 0, 0), L("rej", c, 500, "", FALSE, 0, 0), L("resp", c, 500, "ok", TRUE, 0, 0),
                         L("close", c, 0, "", FALSE, 0, 0)>>
